@@ -80,13 +80,13 @@ Common(tt) ==
   IF ~o.live THEN TRUE
   ELSE All({
     Check("the class of every module of the tree is in the catalogue", KnownShape(o)),
-    Check("the registry of every module can be read (layer_mutation_methods / node_mutation_methods / mutation_methods return)", Readable(o)),
+    Check("the registry of every module can be read (layer_mutation_methods / node_mutation_methods / mutation_methods return)",
+          \A n \in ToSet(o.nodes) : n.regerr = "" \/ (prev[tt].live /\ n.p \in Paths(prev[tt]) /\ NodeRec(prev[tt], n.p).regerr # "")),
     Check("the public registry is the module's own list with forwarded names kept only while the child still offers them",
           (KnownShape(o) /\ Readable(o)) => MatchReg(TreeOf(o), o)),
     Check("no name is registered twice", \A n \in ToSet(o.nodes) : n.dup => (prev[tt].live /\ n.p \in Paths(prev[tt]) /\ NodeRec(prev[tt], n.p).dup)),
     Check("mutation_methods = layer_mutation_methods + node_mutation_methods", \A n \in ToSet(o.nodes) : n.union),
     Check("no name is offered both as layer and as node mutation", \A n \in ToSet(o.nodes) : ToSet(n.L) \cap ToSet(n.N) = {}),
-    Check("last_mutation is the method last_mutation_attr names", \A n \in ToSet(o.nodes) : ~FlagWorse(tt, n, "lastfn")),
     Check("a wrapped module offers nothing itself (its methods are handled by the wrapper)", \A n \in ToSet(o.nodes) : ~FlagWorse(tt, n, "wrapped_off")),
     Check("every registered name resolves to the module CURRENTLY at that path (not to one that was replaced)", NewBad(tt, "stale") = {}),
     Check("every registered name resolves (getattr) to a mutation method of a module of this tree", NewBad(tt, "lost") = {}),
@@ -124,6 +124,7 @@ NotApplicable == Check("the recorded operation is applicable in the observed sta
 JConstruct ==
   All({ NoRaise,
         Check("a new module starts without a clone", ~Ev.post[2].live),
+        Check("last_mutation is the method last_mutation_attr names", \A n \in ToSet(Ev.post[1].nodes) : n.lastfn),
         IF Ev.exc # "" \/ Ev.c \notin ClassNames THEN TRUE ELSE Judge(1, {Plain(Build(Ev.c))}, TRUE) })
 
 PreEntryOK ==
@@ -132,12 +133,15 @@ PreEntryOK ==
 JCall ==
   IF ~(Applicable /\ ~Container(PreT, Ev.p) /\ Ev.m \in RegAll(PreT, Ev.p)) THEN NotApplicable
   ELSE IF ~PreEntryOK THEN TRUE     \* the name was already bound to a replaced module / not routed: reported when that happened
-  ELSE LET H  == IF T.cfg.truth THEN {Ev.h} \cap (0..MaxHopsOf(PreT, Ev.p, Ev.m)) ELSE 0..MaxHopsOf(PreT, Ev.p, Ev.m)
-           CS == {LET r == CallResult(PreT, Ev.p, Ev.m, h) IN Cand(r.tree, r.recr, r.hooks, r.ret) : h \in H}
+  ELSE LET mh == MaxHopsOf(PreT, Ev.p, Ev.m)
+           H  == IF T.cfg.truth THEN {IF Ev.h <= mh THEN Ev.h ELSE mh} ELSE 0..mh
+           CS == {LET r == CallResult(PreT, Ev.p, Ev.m, hl[1], hl[2]) IN Cand(r.tree, r.recr, r.hooks, r.ret) :
+                    hl \in {x \in H \X BOOLEAN : x[2] => Ambiguous(PreT, Ev.p, Ev.m, x[1])}}
            lastp == NodeRec(Ev.post[Ev.t], Ev.p).last
        IN All({ NoRaise,
                 IF Ev.exc # "" THEN TRUE ELSE Judge(Ev.t, CS, TRUE),
                 Frame(3 - Ev.t),
+                Check("last_mutation is the method last_mutation_attr names", \A n \in ToSet(Ev.post[Ev.t].nodes) : ~FlagWorse(Ev.t, n, "lastfn")),
                 Check("(ground truth) at most one method body applies something per outermost call", T.cfg.truth => Len(Ev.bodies) <= 1),
                 Check("(ground truth) last_mutation_attr names the body that really ran, None if none ran",
                       (T.cfg.truth /\ Ev.exc = "" /\ Ev.p \in Paths(Ev.post[Ev.t]) /\ Len(Ev.bodies) <= 1) =>
@@ -152,7 +156,8 @@ JCallDis ==
     Check("calling a method the module does not offer either fails with AttributeError or returns", Ev.exct \in {"", "AttributeError"}),
     Check("a method that is not offered applies nothing (no body runs, no architecture changes, nothing is recreated)",
           Ev.bodies = <<>> /\ Ev.changed = <<>> /\ Ev.rc = <<>> /\ Ev.lost = 0),
-    Judge(Ev.t, IF Ev.exct # "" THEN {Plain(PreT)} ELSE {Plain(PreT), Plain([PreT EXCEPT ![Ev.p].last = None])}, TRUE),
+    Judge(Ev.t, IF Ev.exct # "" THEN {Plain(PreT)}
+                ELSE {Cand(PreT, {}, {Ev.p}, None), Cand([PreT EXCEPT ![Ev.p].last = None], {}, {Ev.p}, None)}, TRUE),
     Frame(3 - Ev.t) })
 
 JSample ==
@@ -181,15 +186,15 @@ JSample ==
 
 JDisable ==
   IF ~Applicable THEN NotApplicable
-  ELSE All({ NoRaise, Judge(Ev.t, {Plain(DisableTree(PreT, Ev.p, ToSet(Ev.ks)))}, TRUE), Frame(3 - Ev.t) })
+  ELSE All({ NoRaise, IF Ev.exc # "" THEN TRUE ELSE Judge(Ev.t, {Plain(DisableTree(PreT, Ev.p, ToSet(Ev.ks)))}, TRUE), Frame(3 - Ev.t) })
 
 JFilter ==
   IF ~(Applicable /\ ~Container(PreT, Ev.p)) THEN NotApplicable
-  ELSE All({ NoRaise, Judge(Ev.t, {Plain(FilterNode(PreT, Ev.p, Ev.s))}, TRUE), Frame(3 - Ev.t) })
+  ELSE All({ NoRaise, IF Ev.exc # "" THEN TRUE ELSE Judge(Ev.t, {Plain(FilterNode(PreT, Ev.p, Ev.s))}, TRUE), Frame(3 - Ev.t) })
 
 JAssign ==
   IF ~(Applicable /\ ~Container(PreT, Ev.p) /\ Ev.c \in ClassNames) THEN NotApplicable
-  ELSE All({ NoRaise, Judge(Ev.t, {Plain(AssignTree(PreT, Ev.p, Ev.a, Build(Ev.c)))}, TRUE), Frame(3 - Ev.t) })
+  ELSE All({ NoRaise, IF Ev.exc # "" THEN TRUE ELSE Judge(Ev.t, {Plain(AssignTree(PreT, Ev.p, Ev.a, Build(Ev.c)))}, TRUE), Frame(3 - Ev.t) })
 
 JClone ==
   IF ~(Live(trees[1]) /\ ~Live(trees[2]) /\ KnownShape(prev[1])) THEN NotApplicable
